@@ -56,7 +56,9 @@ CHECKS = {
                  "de-duplication. Correspondence: "
                  "FollowLinks over synthetic and on-disk views with relative/absolute/'..'/chained/cyclic/self/dangling links and wildcard requests vs the "
                  "transcribed resolver (0 disagreements on the generated cases); oracle: the chroot-style reference resolver (every traversed link and the "
-                 "final location covered by the result, empty result when the root is reached, sorted, prefix-free); termination by a 5 s watchdog."),
+                 "final location covered by the result, empty result when the root is reached, sorted, prefix-free); termination by a 5 s watchdog. End to end "
+                 "(suite followsend): real Send over NewFilterFS{FollowPaths} + Receive; every requested path must resolve in the transferred tree to the same "
+                 "location, kind and bytes as in the source (found F25, repaired)."),
         "note": ("Trusted: Lean kernel + standard axioms; termination and closure of the resolver are decided by correspondence + oracle per case, not by a "
                  "theorem (the variant is the `resolved` set); known findings F12 (middle wildcards) and F19 (memo keyed by link path) are listed; the "
                  "end-to-end clause (transfer with those follow-paths resolves identically) is not exercised yet."),
@@ -78,9 +80,9 @@ CHECKS = {
                  "listing names an earlier entry announced without link name (reset_closed, by an invariant over the memo); the reset keeps entries and "
                  "order (reset_paths); one-step lemmas reset_promotes / reset_relinks / reset_keeps_plain and the step equations. Correspondence: real Send over NewFilterFS(view) "
                  "(hard-link groups straddling included/excluded paths) + Receive: STAT log vs filterWalk + reset model, executable closure check of link names, "
-                 "destination = filtered view (C01 spec); Walk vs Open agreement on every regular file."),
+                 "destination = filtered view (C01 spec); Walk vs Open agreement on every regular file; FollowPaths configurations end to end (suite followsend)."),
         "note": ("Trusted: Lean kernel + standard axioms; the canonical-listing hypothesis of reset_closed is what fs.Walk delivers (C09) and is checked by execution per case "
-                 "(linksClosed on the real STAT log); FollowPaths and nested filter stacks are not generated yet. Known finding F5."),
+                 "(linksClosed on the real STAT log); nested filter stacks are not generated yet. Known finding F5."),
     },
     "C20": {
         "text": ("Lean theorems (unbounded) about the TRANSCRIBED generated code: unmarshalStat (marshalStat s) = ok s for every well-formed Stat "
